@@ -46,6 +46,8 @@ run_directed = directed.run
 
 
 def cases(tier, rng):
+    for c in directed.condition_raising_type_error_cases():
+        yield "directed-condition-raising-type-error", c
     for c in directed.base_exception_error_classes_cases():
         yield "directed-base-exception-error-classes", c
     thorough = tier == "thorough"
